@@ -460,6 +460,16 @@ def fast_path_guard(an, fn, node, data_expr, avoid=None, assume=()):
                 others = [d for i_, d in here.items() if i_ not in seen_[0]]
                 if all(d.node in avoid for d in others):
                     return True, "same-field proxy fast path: elements were validated by the same field when they entered %s" % sorted(good)
+    # the guard was asked of a local copy of the data (`trusted = self._holds_validated(iterable)` expanded where it is called
+    # tests its own parameter): same value when both names resolve to the same leaves
+    if isinstance(data_expr, ast.Name) and data_expr.id not in good:
+        def leaves(name_id, at):
+            return {(k_, id(p_) if isinstance(p_, ast.AST) else p_) for k_, p_ in value_sources(fn, ast.Name(id=name_id, ctx=ast.Load()), at)}
+        want = leaves(data_expr.id, node)
+        for e, truth, t in atoms:
+            if truth and isinstance(e, ast.Call) and isinstance(e.func, ast.Name) and e.func.id == "isinstance" and isinstance(e.args[0], ast.Name) \
+                    and e.args[0].id in good and want and leaves(e.args[0].id, t) == want and not avoid:
+                return True, "same-field proxy fast path: elements were validated by the same field when they entered %s" % sorted(good)
     for kind, payload in value_sources(fn, data_expr, node):
         if kind == "param" and payload in good:
             continue
@@ -481,6 +491,11 @@ def fast_path_guard(an, fn, node, data_expr, avoid=None, assume=()):
             base = it.func.value if isinstance(it, ast.Call) and isinstance(it.func, ast.Attribute) else it
             if isinstance(base, ast.Name) and base.id in good:
                 continue
+            if isinstance(base, ast.Name):
+                # a local copy of the guarded proxy (the parameter of a helper expanded under the guard)
+                bs = value_sources(fn, base, None)
+                if bs and all((k_ == "param" and p_ in good) or (k_ == "expr" and isinstance(p_, ast.Name) and p_.id in good) for k_, p_ in bs):
+                    continue
         return False, "guarded, but the data handed to the builtin is not the guarded proxy"
     return True, "same-field proxy fast path: elements were validated by the same field when they entered %s" % sorted(good)
 
